@@ -183,7 +183,11 @@ def _validate_one(trace_module, cfg, trace_file, timeout, xmx, extra_env):
     env = dict(os.environ, TRACE=trace_file, OUT=out_json)
     if extra_env:
         env.update(extra_env)
-    cmd = _java(["-Xss1g", "-Dtlc2.tool.queue.IStateQueue=StateDeque"], xmx) + [
+    # ConnTrace branches where the trace leaves something open and prunes dominated branches at scenario
+    # boundaries, which relies on breadth-first order (TraceBase!PruneAtReset); the other trace specs are
+    # linear and keep the depth-first queue
+    opts = ["-Xss1g"] + ([] if trace_module == "ConnTrace" else ["-Dtlc2.tool.queue.IStateQueue=StateDeque"])
+    cmd = _java(opts, xmx) + [
         "-workers", "1", "-metadir", meta, "-cleanup", "-noGenerateSpecTE",
         "-config", cfg, trace_module + ".tla"]
     t0 = time.time()
